@@ -9,6 +9,7 @@ declared array, others by value, no p-name among the free parameters) + serialis
 import ast as pyast
 import collections
 import itertools
+import os
 
 from bbv.core import pool, observe
 from bbv.model import lang, denote
@@ -39,7 +40,7 @@ META = {
 }
 
 
-def build(ctx):
+def build(ctx, incdir=None):
     scripts = []
     fam = collections.Counter()
 
@@ -109,25 +110,70 @@ def build(ctx):
         for order in ("p-first", "A-first"):
             decls = [parr("p0", t, shape), twin] if order == "p-first" else [twin, parr("p0", t, shape)]
             add("ordinary array equal to a p-array (%s)" % order, ["tdm", "none"], decls + [st("Correct", [V("A"), V("p0"), N("0.4")], []), st("MeasureHomodyne", [], [("phi", V("p0")), ("offset", V("A"))])])
+    # tdm programs that include an ordinary / differently typed file (the include is parsed between the type line and the declarations)
+    if incdir:
+        for incs, calls in (([os.path.join(incdir, "sub.xbb")], [st("Sub", None, [], [N("3"), N("4")])]), ([os.path.join(incdir, "subt.xbb")], [st("SubT", [], [("x", N("2"))], [N("5")])]),
+                            ([os.path.join(incdir, "sub.xbb"), os.path.join(incdir, "subt.xbb")], [])):
+            for t, shape in itertools.product(ELEMS, SHAPES[1:3]):
+                for mk in ("tdm", "tdm-target"):
+                    sc = dict(META[mk], includes=incs, items=[parr("p0", t, shape), parr("p1", "float", (1, 2)), st("Sgate", [V("p0"), N("0.0")], [], [N("1")])] + calls + [st("MeasureHomodyne", [], [("phi", V("p1"))])])
+                    scripts.append((mk, sc))
+                    fam["tdm program with includes"] += 1
     add("no p-arrays", allm, [st("G", [N("1")], [])])
     add("no p-arrays, parameter", allm, [st("G", [P("a")], [])])
     return scripts, fam
 
 
+SUB = dict(name="Sub", version="1.0", items=[("stmt", "A", [N("0.5")], [], [N("0")], "none"), ("stmt", "B", None, [], [N("1"), N("0")], "sq")])
+SUBT = dict(name="SubT", version="1.0", type=("other", None, []), items=[("stmt", "C", [P("x")], [], [N("0")], "none")])
+
+
+def library(sc):
+    incs = sc.get("includes", [])
+    return {p: (SUBT if p.endswith("subt.xbb") else SUB) for p in incs}
+
+
 def judge(mk, sc):
     text = lang.render(sc)
     try:
-        m = denote.Model().run(sc)
+        m = denote.Model(library(sc)).run(sc)
     except (denote.OutOfDomain, denote.Refused) as e:
         return ("C15/harness-model-refuses", repr(e))
     st_, p = common.loads(text)
     if st_ == "exc":
         return ("C15/load-raises:" + type(p).__name__, common.exc_sig(p))
-    errs = denote.compare(m, p, check_params=True, check_vars=True)
+    errs = denote.compare(m, p, check_params=True, check_vars=not sc.get("includes"))
     if bool(p.is_template()) != bool(m.params):
         errs.append("is_template %r but parameters written %r" % (p.is_template(), m.params))
     if errs:
         return ("C15/load-differs:" + "|".join(sorted(set(e.split(" ")[0].split("-")[-1] if e.startswith("op") else e.split(" ")[0] for e in errs))), "; ".join(errs)[:300])
+    # an instantiated tdm template is still the same tdm program (type, p-arrays, references)
+    has_param_array = any(it[0] == "arr" and any(x[0] == "par" for row in it[4] for x in row) for it in sc["items"])
+    if m.params and not has_param_array:
+        try:
+            inst = p(**{n: 0.5 for n in m.params})
+        except Exception as e:  # noqa
+            return ("C15/instantiation-raises:" + type(e).__name__, common.exc_sig(e))
+        if inst.programtype != p.programtype or inst.target != p.target or inst.name != p.name or inst.version != p.version:
+            return ("C15/instance-metadata-differs", "type %r vs %r; target %r vs %r; version %r vs %r" % (inst.programtype, p.programtype, inst.target, p.target, inst.version, p.version))
+        for n in m.ptypes:
+            if n not in inst.variables or not equiv.val_equiv(inst.variables[n], p.variables[n]):
+                return ("C15/instance-p-array-differs", n)
+        for o1, o2 in zip(p.operations, inst.operations):
+            for a1, a2 in zip(list(o1.get("args", [])) + list(o1.get("kwargs", {}).values()), list(o2.get("args", [])) + list(o2.get("kwargs", {}).values())):
+                if isinstance(a1, str) and a1 != a2:
+                    return ("C15/instance-reference-differs", "%r vs %r" % (a1, a2))
+        s2, t = common.dumps(inst)
+        if s2 == "exc":
+            return ("C15/instance-dumps-raises:" + type(t).__name__, common.exc_sig(t))
+        s3, q = common.loads(t)
+        if s3 == "exc":
+            return ("C15/instance-reload-raises:" + type(q).__name__ + ":" + common.msgclass(q), common.exc_sig(q) + " ;; " + t[-300:])
+        d = equiv.prog_equiv(inst, q, variables=sorted(m.ptypes))
+        if d:
+            return ("C15/instance-roundtrip-differs:" + equiv.classify(d), "; ".join(d)[:300] + " ;; " + t[-300:])
+    if sc.get("includes"):
+        return None          # the serialiser does not write include lines; the round trip of inlined programs is C01/C07's subject
     # round trip
     s2, t = common.dumps(p)
     if s2 == "exc":
@@ -148,8 +194,16 @@ def _case(c):
     return judge(*c)
 
 
+def write_includes(d):
+    os.makedirs(d, exist_ok=True)
+    open(os.path.join(d, "sub.xbb"), "w").write(lang.render(SUB))
+    open(os.path.join(d, "subt.xbb"), "w").write(lang.render(SUBT))
+
+
 def run(ctx):
-    scripts, fam = build(ctx)
+    incdir = os.path.join(ctx.scratch, "c15inc")
+    write_includes(incdir)
+    scripts, fam = build(ctx, incdir)
     scripts = common.shard(scripts, ctx.seed)
     res = pool.pmap(_case, scripts, chunk=30)
     Vs = common.Violations(keep=5)
@@ -170,5 +224,18 @@ def run(ctx):
 
 
 def replay(case):
-    r = judge(case["meta"], pyast.literal_eval(case["ast"]))
-    return (r is not None), repr(r)[:400]
+    import re
+    import shutil
+    import tempfile
+    sc = pyast.literal_eval(case["ast"])
+    d = None
+    if sc.get("includes"):
+        d = tempfile.mkdtemp(prefix="bbv-c15r-")
+        write_includes(d)
+        sc["includes"] = [os.path.join(d, os.path.basename(x)) for x in sc["includes"]]
+    try:
+        r = judge(case["meta"], sc)
+    finally:
+        if d:
+            shutil.rmtree(d, ignore_errors=True)
+    return (r is not None), re.sub(r"/tmp/[\w./-]+", "<TMP>", repr(r))[:400]
